@@ -173,17 +173,18 @@ static const PmcConfig CFG[] = {
     {"0i:w1,t1|s1|s1:tdev",   2, {1,2}, {1,1}, {0,0}, {2,2}, "three vCPUs"},
     {"0o:w1,w2,w1|s2s2",      2, {1,2}, {0,0}, {0,0}, {0,0}, "ooo with three waiters"},
     {"0o:pW1w2,pw2w2,ps2W1",  3, {0,0}, {0,0}, {0,0}, {0,0}, "barging: a token meant for a resumed waiter is taken on the fast path; the rest must still reach a covered waiter"},
+    {"0i:w1|s1:tso",          3, {1,2}, {0,0}, {1,1}, {2,3}, "x86-TSO store buffers"},
+    {"0o:w2,w1|s1s2:tso",     3, {1,1}, {0,0}, {1,1}, {2,2}, ""},
+    {"0i:w1|s1:plain",        3, {1,2}, {0,0}, {0,0}, {0,0}, "plain accesses to the semaphore object (wait queue links) are scheduling points too"},
+    {"0o:w2,w1|s1s2:plain",   2, {1,1}, {0,0}, {0,0}, {0,0}, ""},
+    {"0i:w1|@s1:tso",         2, {1,2}, {0,0}, {1,1}, {2,3}, ""},
+    // generated programs last: they take whatever budget the configs above leave
     {"0i:gen3x1:tdev",        3, {0,0}, {0,1}, {0,0}, {0,0}, "generated: every 3-thread program with one op each from {w1,w2,W1,t1,t2,s1,s2,i0,i1}, every arrival order, a timeout anywhere"},
     {"0i:gen2x2:tdev",        3, {0,0}, {0,1}, {0,0}, {0,0}, "generated: 2 threads x up to 2 ops"},
     {"0o:gen3x1:tdev",        3, {0,0}, {0,1}, {0,0}, {0,0}, "out-of-order mode"},
     {"1i:gen3x2",             2, {0,0}, {0,0}, {0,0}, {0,0}, "generated: 3 threads x up to 2 ops"},
     {"0o:gen3x2",             2, {0,0}, {0,0}, {0,0}, {0,0}, ""},
     {"0i:gen2x3+:tdev",       2, {0,0}, {1,1}, {0,0}, {0,0}, ""},
-    {"0i:w1|s1:tso",          3, {1,2}, {0,0}, {1,1}, {2,3}, "x86-TSO store buffers"},
-    {"0o:w2,w1|s1s2:tso",     3, {1,1}, {0,0}, {1,1}, {2,2}, ""},
-    {"0i:w1|s1:plain",        3, {1,2}, {0,0}, {0,0}, {0,0}, "plain accesses to the semaphore object (wait queue links) are scheduling points too"},
-    {"0o:w2,w1|s1s2:plain",   2, {1,1}, {0,0}, {0,0}, {0,0}, ""},
-    {"0i:w1|@s1:tso",         2, {1,2}, {0,0}, {1,1}, {2,3}, ""},
 };
 const PmcConfig* pmc_configs(int* n) { *n = sizeof CFG / sizeof CFG[0]; return CFG; }
 const char* pmc_property(void) { return "C02"; }
